@@ -194,9 +194,9 @@ theorem boolLit_eq_boolValue (val : Bytes) : boolLit val = boolValue val := by
   rw [boolLit, boolLitIn_eq_lookup, boolValue, ← lookup_wordLits boolWords (by decide) val]
   exact lookup_congr (by decide +kernel) (by decide +kernel) (by decide +kernel) (by decide +kernel) val
 
-theorem boolRows_spec (c : Chunk) (mode : Mode) (inv : Bool) (rest : List Bytes) (i s : Nat) (el va : List Bool)
-    (h : EncFrom c i s rest) :
-    boolRows c mode inv rest.length i el va =
+theorem boolRows_spec (c : Chunk) (mode : Mode) (inv : Bool) (capE capV : Nat) (rest : List Bytes) (i s : Nat)
+    (el va : List Bool) (h : EncFrom c i s rest) (hE : i + rest.length ≤ capE) (hV : i + rest.length ≤ capV) :
+    boolRows c mode inv capE capV rest.length i el va =
       match numericColumn mode inv (rest.map boolClass) with
       | some (vs, fs) => .ok (el ++ vs, va ++ fs)
       | none => .error (.other "Exception") := by
@@ -204,18 +204,21 @@ theorem boolRows_spec (c : Chunk) (mode : Mode) (inv : Bool) (rest : List Bytes)
   | nil => simp [boolRows, numericColumn]
   | cons cell rest ih =>
     have hrest := h.2.2.2
+    simp only [List.length_cons] at hE hV
+    have hE1 : ¬ capE ≤ i := by omega
+    have hV1 : ¬ capV ≤ i := by omega
     simp only [List.length_cons, List.map_cons]
     rw [boolRows, boolCell_spec c i s cell rest h]
-    have ih' := fun el va => ih (i + 1) (s + cell.length) el va hrest
+    have ih' := fun el va => ih (i + 1) (s + cell.length) el va hrest (by omega) (by omega)
     have hcons : numericColumn mode inv (boolClass cell :: rest.map boolClass) =
         consCell (numericCell mode inv (boolClass cell)) (numericColumn mode inv (rest.map boolClass)) := rfl
     rw [hcons]
     generalize numericColumn mode inv (rest.map boolClass) = col at ih' ⊢
     by_cases he : trimBlank cell = []
     · have hk : boolClass cell = .empty := by simp [boolClass, he]
-      simp only [he, if_true, hk]
+      simp only [he, if_true, hk, hE1, hV1, if_false]
       cases mode <;> cases col <;> simp [numericCell, consCell, ih']
-    · simp only [he, if_false, boolLit_eq_boolValue]
+    · simp only [he, if_false, boolLit_eq_boolValue, hE1, hV1]
       cases hv : boolValue (trimBlank cell) with
       | some v =>
         have hk : boolClass cell = .value (v == 1) := by simp [boolClass, he, hv]
@@ -226,13 +229,17 @@ theorem boolRows_spec (c : Chunk) (mode : Mode) (inv : Bool) (rest : List Bytes)
         simp only [hk]
         cases mode <;> cases col <;> simp [numericCell, consCell, ih']
 
-theorem boolTransform_spec (c : Chunk) (mode : Mode) (inv : Bool) (cells : List Bytes) (h : Encodes c cells) :
-    boolTransform c mode inv =
+/-- `numeric_bool_transform` on a well-formed chunk, with result arrays of at least `written_row_count` elements (the only
+    caller allocates exactly that many) -/
+theorem boolTransform_spec (c : Chunk) (mode : Mode) (inv : Bool) (capE capV : Nat) (cells : List Bytes)
+    (h : Encodes c cells) (hE : c.rows ≤ capE) (hV : c.rows ≤ capV) :
+    boolTransform c mode inv capE capV =
       match numericColumn mode inv (cells.map boolClass) with
       | some r => .ok r
       | none => .error (.other "Exception") := by
-  obtain ⟨hr, s0, he, _⟩ := h
-  rw [boolTransform, hr, boolRows_spec c mode inv cells 0 s0 [] [] he]
+  obtain ⟨hr, ⟨s0, he, _⟩, hcol⟩ := h
+  rw [boolTransform, withCol_ok c _ _ _ hcol, hr,
+    boolRows_spec c mode inv capE capV cells 0 s0 [] [] he (by omega) (by omega)]
   cases numericColumn mode inv (cells.map boolClass) with
   | none => rfl
   | some r => simp
